@@ -300,6 +300,11 @@ def rule_spatial_rejection(ck):
     c01.rule_mask_polarity(ck)
     c01.rule_raw_coordinates(ck)
     c01.rule_single_edge(ck)
+    # a catalog gridded on a quadtree region is located by its point lookup: every event asked about with its own coordinates, every
+    # located cell (the first one, index 0, included) kept
+    from . import c17
+    ck.clause('D5 (shared with C17-D4: the quadtree lookup answers for every event)')
+    c17.rule_point_lookup(ck)
 
 
 PURE = ['get_mag_idx', 'get_spatial_idx', 'spatial_counts', 'spatial_event_probability', 'magnitude_counts', 'spatial_magnitude_counts']
